@@ -28,6 +28,9 @@
 (* Only the laws (7) can raise an alarm (they are the property statement). *)
 (* Render and Read are the mechanism model M: a disagreement between them  *)
 (* and the real code on which both real reading paths agree is MODEL-DRIFT *)
+(* (a note).  Read models the path through the model value (the events the *)
+(* bridge feeds); where the real code has an open finding that Read must   *)
+(* mirror to stay a model of it, the behaviour is switched by Defects.     *)
 (***************************************************************************)
 EXTENDS Naturals, Sequences, FiniteSets, TLC
 
